@@ -18,7 +18,7 @@ LEVEL = 'translation_validation'
 X, Y, Zv = A.V('X'), A.V('Y'), A.V('Z')
 OPS_REG = ('add', 'sub', 'mul')
 LEAVES = [X, Y, A.N(S1), A.S('a'), A.INF, A.SUP]
-SMALL = [X, Y, A.N(S1), A.S('a')]
+SMALL = [X, Y, A.N(S1), A.S('a'), A.INF, A.SUP]
 
 
 def reg_terms(depth):
